@@ -1,4 +1,4 @@
-import LivesimVerif.Model.Core
+import LivesimVerif.Model.Audio
 import Driver.Util
 /-! Driver state (asset tables sent by the harness) and the `seg` op. -/
 open Drv Core
@@ -58,6 +58,15 @@ def statusStr : Status → String
   | .ok => "200" | .tooEarly ms => s!"425 ms={ms}" | .gone => "410" | .notFound => "404"
   | .internal => "500" | .panic => "PANIC"
 
+/-- compress a frame list into ranges "a-b,c-d" (a padding frame repeats: "x,x") -/
+def rangesStr (l : List Nat) : String :=
+  let rec go : List Nat → Option (Nat × Nat) → List String → List String
+    | [], none, acc => acc.reverse
+    | [], some (a, b), acc => (s!"{a}-{b}" :: acc).reverse
+    | x :: t, none, acc => go t (some (x, x)) acc
+    | x :: t, some (a, b), acc => if x = b + 1 then go t (some (a, x)) acc else go t (some (x, x)) (s!"{a}-{b}" :: acc)
+  joinWith "," (go l none [])
+
 def metaStr (r : Rep) (m : Meta) : String :=
   if r.kind = .image then s!"200 img orig={m.origNr}"
   else if r.stpp then s!"200 nr={m.newNr} tfdt={m.newTime} dur={m.newDur} orig=stpp"
@@ -84,7 +93,15 @@ def opSeg (st : DState) (args : List String) : String :=
       match a.rep? repId with
       | none => "404"
       | some r =>
-        if r.kind = .audio ∧ !r.preEnc then "audio-not-modelled-here" else
+        if r.kind = .audio ∧ !r.preEnc then
+          match audioSegment a r cfg sid now with
+          | .inr s => statusStr s
+          | .inl .panic => "PANIC"
+          | .inl .err => "500"
+          | .inl (.ok nr start frames) =>
+            let ident := if aname.startsWith "gen_" then rangesStr frames else "?"
+            s!"200 nr={nr} tfdt={start} n={frames.length} frames={ident}"
+        else
         match lookupVideo a r cfg sid now with
         | .found m => withGoneTie a r cfg m now (metaStr r m)
         | .status s => statusStr s
